@@ -110,6 +110,9 @@ func scenC16(run *vlab.Run, sx, tmp string) {
 			if i%4 == 3 { // reserved for the single-chunk "replies keep arriving" variant
 				c.NRanges = 1 + rng.Intn(3)
 			}
+			if i%5 == 1 { // reserved for the rate-limited variant: a single chunk
+				c.NRanges = 1 + rng.Intn(2)
+			}
 			if c.NRanges > 200 {
 				c.Subnet = fmt.Sprintf("%s/%d", ipS(base), 31+rng.Intn(2))
 			}
@@ -125,7 +128,13 @@ func scenC16(run *vlab.Run, sx, tmp string) {
 		if c.DelayMs > 0 {
 			c.Extra = append(c.Extra, "--exit-delay", fmt.Sprintf("%dms", c.DelayMs))
 		}
-		if c.Chunks == 1 && bits >= 29 && i%5 == 1 {
+		if i%5 == 1 {
+			// (a few probes only: with --rate 5/s a /29 takes 1.6 s)
+			if bits < 29 {
+				bits = 29 + i/5%3
+				base = (0x0a090000 | base&0xff00) &^ (1<<uint(32-bits) - 1)
+				c.Subnet = fmt.Sprintf("%s/%d", ipS(base), bits)
+			}
 			// a rate limit slows sending down, never receiving: late replies are reported all the same
 			c.Extra = append(c.Extra, "--rate", "5/s")
 			c.Late, c.AnswerAll = true, true
